@@ -106,6 +106,7 @@ class SDict(Val):
     id: Any
     key: str = "str"
     val: str = "ref"         # 'ref' | 'str' | 'strlist'
+    dflt: Optional[str] = None   # 'list' for a collections.defaultdict(list)
 
 
 @dataclass
